@@ -129,5 +129,12 @@ func C12CreateStep() {
 	m := CreateNode(t, d)
 	zz.Assert(m != n, "two acquisitions never return the same node")
 	zz.Assert(m.ID != n.ID, "two acquisitions carry different IDs")
+	// whichever pooled node comes back first, every acquisition is blank
+	zz.Assert(m.Parent == nil && m.FirstChild == nil && m.LastChild == nil && m.PrevSibling == nil && m.NextSibling == nil && m.FormatSpecific == nil,
+		"created node is otherwise blank")
+	k := CreateNode(t, d)
+	zz.Assert(k.Parent == nil && k.FirstChild == nil && k.LastChild == nil && k.PrevSibling == nil && k.NextSibling == nil && k.FormatSpecific == nil,
+		"created node is otherwise blank")
+	zz.Assert(k != n && k != m && k.ID != n.ID && k.ID != m.ID, "two acquisitions carry different IDs")
 	zz.Cover("created")
 }
